@@ -376,7 +376,6 @@ func otherDir(i int) int { return 1 - i }
 func oneRun(k *vlib.Case, stratum string) {
 	r := k.R
 	c := k.C
-	tStart := time.Now()
 	ctx, cancel := context.WithCancel(context.Background())
 	defer cancel()
 
@@ -482,9 +481,6 @@ func oneRun(k *vlib.Case, stratum string) {
 	_, err = mfs.FlushPath(ctx, root, "/")
 	must(err)
 
-	if os.Getenv("C20_TIMING") != "" {
-		fmt.Fprintf(os.Stderr, "setup done %v\n", time.Since(tStart))
-	}
 	// ---- plan (pure function of the case PRNG)
 	plans := make([][]op, nworkers)
 	for wi := 0; wi < nworkers; wi++ {
@@ -589,9 +585,6 @@ func oneRun(k *vlib.Case, stratum string) {
 		c.Abort()
 		w.summarise(false)
 		return
-	}
-	if k.Failed() {
-		// an operation returned an unexpected error: history is still checked
 	}
 
 	// ---- final flush and read-back
@@ -729,14 +722,10 @@ func (w *world) dir(path string, o op) *mfs.Directory {
 func (w *world) worker(wi int, plan []op) {
 	for _, o := range plan {
 		w.progress[wi].Add(1)
-		t := time.Now()
 		sp := opSpan{o: o, call: w.rec.now()}
 		w.exec(wi, o)
 		sp.ret = w.rec.now()
 		w.oplog[wi] = append(w.oplog[wi], sp)
-		if d := time.Since(t); d > 200*time.Millisecond && os.Getenv("C20_TIMING") != "" {
-			fmt.Fprintf(os.Stderr, "slow op w%d %s %v\n", wi, o, d)
-		}
 	}
 	w.progress[wi].Add(1)
 }
